@@ -48,6 +48,83 @@ def fam_reads(seed, i, tier):
 
 FAMILIES = {"core": fam_core, "crash": fam_crash, "reads": fam_reads}
 
+# ---- API programs (C18): enumerated by TLC from Api.tla ------------------------------------
+
+ROLE_PREFIX = {
+    "leader": [{"op": "fire", "n": "a"}, {"op": "xchg", "kind": "rv", "from": "a", "to": "b"}, {"op": "xchg", "kind": "rv", "from": "a", "to": "b"},
+               {"op": "xchg", "kind": "ae", "from": "a", "to": "b"}],
+    "follower": [{"op": "fire", "n": "b"}, {"op": "xchg", "kind": "rv", "from": "b", "to": "c"}, {"op": "xchg", "kind": "rv", "from": "b", "to": "c"},
+                 {"op": "xchg", "kind": "ae", "from": "b", "to": "c"}, {"op": "hb", "n": "b"}, {"op": "xchg", "kind": "ae", "from": "b", "to": "a"}],
+    "precandidate": [{"op": "fire", "n": "a"}],
+    "candidate": [{"op": "fire", "n": "a"}, {"op": "xchg", "kind": "rv", "from": "a", "to": "b"}],
+    "fresh": [],
+}
+
+
+def api_call_stim(call, k):
+    a = {"n": "a"}
+    m = {
+        "bootstrap": {"op": "api", "val": "bootstrap"}, "bootstrap_other": {"op": "api", "val": "bootstrap", "id": "z"},
+        "start": {"op": "api", "val": "start"}, "stop": {"op": "api", "val": "stop"}, "restart": {"op": "api", "val": "restart"},
+        "status_string": {"op": "api", "val": "status_string"}, "cfg_string": {"op": "api", "val": "cfg_string"},
+        "rep": {"op": "submit", "val": "p%d" % k, "k": 0, "to_ms": 5000}, "rep_empty": {"op": "submit", "val": "", "k": 0, "to_ms": 5000},
+        "rep_short": {"op": "submit", "val": "q%d" % k, "k": 0, "to_ms": 30}, "lin": {"op": "submit", "val": "l%d" % k, "k": 1, "to_ms": 5000},
+        "lin_short": {"op": "submit", "val": "m%d" % k, "k": 1, "to_ms": 30}, "lease": {"op": "submit", "val": "e%d" % k, "k": 2, "to_ms": 5000},
+        "badtype": {"op": "submit", "val": "b%d" % k, "k": 7, "to_ms": 1000},
+        "add_self": {"op": "add", "id": "a", "v": True, "to_ms": 3000}, "add_voter": {"op": "add", "id": "d", "v": True, "to_ms": 3000},
+        "add_nonvoter": {"op": "add", "id": "e", "v": False, "to_ms": 3000}, "add_empty": {"op": "add", "id": "", "v": True, "to_ms": 3000},
+        "remove_self": {"op": "remove", "id": "a", "to_ms": 3000}, "remove_member": {"op": "remove", "id": "b", "to_ms": 3000},
+        "remove_stranger": {"op": "remove", "id": "z", "to_ms": 3000},
+    }[call]
+    return dict(m, **a)
+
+
+def api_programs(workdir, maxlen):
+    import subprocess
+    d = os.path.join(workdir, "api-gen")
+    driver.stage_spec(d, ["Api.tla"])
+    with open(os.path.join(d, "Api.cfg"), "w") as f:
+        f.write("CONSTANTS MaxLen = %d\nSPECIFICATION Spec\nINVARIANT Emit\nCHECK_DEADLOCK FALSE\n" % maxlen)
+    r = subprocess.run(driver.tlc_cmd(["-Xmx3g"]) + ["-workers", "1", "-metadir", os.path.join(d, "md"), "-config", "Api.cfg", "Api.tla"],
+                       cwd=d, capture_output=True, text=True, timeout=900)
+    progs = []
+    for line in r.stdout.splitlines():
+        line = line.strip().strip('"')
+        if line.startswith("PROG|"):
+            _, start, body = line.split("|", 2)
+            progs.append((start, [c.split(":") for c in body.split(",") if c]))
+    ms = __import__("re").search(r"(\d+) distinct states found", r.stdout)
+    return progs, (int(ms.group(1)) if ms else 0)
+
+
+def fam_api_all(seed, tier, workdir):
+    progs, states = api_programs(workdir, 2 if tier == "quick" else 3)
+    rng = random.Random(sseed(seed, "api", 0))
+    combos = []
+    for start, calls in progs:
+        roles = ["leader", "follower", "precandidate", "candidate"] if start.startswith("running") else ["fresh"]
+        for role in roles:
+            combos.append((start, role, calls))
+    rng.shuffle(combos)
+    take = combos[:TIER[tier]["unit"] * 16] if tier == "quick" else combos[:12000]
+    scs = []
+    for i, (start, role, calls) in enumerate(take):
+        sc = {"name": "api-%d-%d" % (seed, i), "family": "api", "voters": ["a", "b", "c"], "controlled": True, "auto": False,
+              "heal": True, "heal_et": 30, "api": {"start": start, "role": role, "calls": calls}}
+        if start.startswith("created"):
+            sc["no_start"] = ["a"]
+            if "+boot" not in start:
+                sc["no_bootstrap"] = ["a"]
+        st = list(ROLE_PREFIX[role])
+        for k, (call, expect) in enumerate(calls):
+            st.append(api_call_stim(call, k))
+            st.append({"op": "adv", "d": 20})
+        # let whatever the program started make progress before the scenario is healed
+        st += [{"op": "controlled", "on": False}, {"op": "auto", "on": True}, {"op": "adv", "d": 700}]
+        sc["stimuli"] = st
+        scs.append(sc)
+    return scs, {"api_programs_enumerated": len(progs), "api_spec_states": states, "api_combinations": len(combos)}
+
 
 def gen_spec_behaviours(cfgname, workdir, num, depth, seed, voters):
     """TLC -simulate on Gen.tla: behaviours of Raft.tla with the action, its arguments and the
@@ -97,13 +174,15 @@ def corpus(names):
 def scen_stats(evs):
     st = {"leaders": set(), "crashes": 0, "applies": 0, "appliers": set(), "truncates": 0, "ok_writes": 0, "ok_reads": 0,
           "votes": 0, "cand_terms": {}, "events": len(evs), "restarts": 0, "nonleader_reads": 0, "ae_rejects": 0,
-          "spec_steps": 0, "spec_matched": 0, "spec_drift": 0}
+          "spec_steps": 0, "spec_matched": 0, "spec_drift": 0, "api_calls": 0}
     for e in evs:
         ev = e["ev"]
         if ev == "status" and e["role"] == 0:
             st["leaders"].add((e["node"], e["term"]))
         elif ev == "crash":
             st["crashes"] += 1
+        elif ev == "invoke":
+            st["api_calls"] += 1
         elif ev == "spec_done":
             st["spec_steps"], st["spec_matched"], st["spec_drift"] = e["steps"], e["matched"], e["drift"]
         elif ev == "restart":
@@ -139,6 +218,8 @@ RULES = {
     "C07": (">= 2 leaderships with entries applied in between", lambda s: len(s["leaders"]) >= 2 and s["applies"] >= 1),
     "C08": ("votes were requested in >= 2 terms or a voter crashed", lambda s: len(s["cand_terms"]) >= 2 or s["crashes"] >= 1),
     "C14": ("a crash at a storage-operation boundary followed by a restart", lambda s: s["crashes"] >= 1 and s["restarts"] >= 1),
+    "C15": ("at heal time some node was down, behind the leader or in a stale term", lambda s: s["crashes"] >= 1 or s["truncates"] >= 1 or len(s["leaders"]) >= 2),
+    "C18": ("an API program of at least two calls was executed", lambda s: s["api_calls"] >= 2),
 }
 
 # ------------------------------------------------------------------------------------------
@@ -153,7 +234,11 @@ PROPS = {
     "C07": dict(fams=[("core", 3), ("crash", 2)], corpus=["core", "crash"], mc="MC_core3", mc_deep="MC_core3_deep", gen=[("Gen_core3", ["a", "b", "c"], 40)]),
     "C08": dict(fams=[("core", 2), ("crash", 3)], corpus=["core", "crash"], mc="MC_crash3", mc_deep="MC_crash3_deep"),
     "C14": dict(fams=[("crash", 5)], corpus=["crash"], mc="MC_crash3", mc_deep="MC_crash3_deep"),
+    "C15": dict(fams=[("core", 2), ("crash", 3)], corpus=["core", "crash"], mc="MC_core3"),
+    "C18": dict(fams=[("core", 1)], corpus=["api"], api=True, mc=None),
 }
+
+EXTRA_COV = {}
 
 TIER = {"quick": dict(unit=12, mc_timeout=60), "thorough": dict(unit=400, mc_timeout=1500)}
 
@@ -167,6 +252,10 @@ def gen_scenarios(prop, tier, seed, workdir):
             scs.append(FAMILIES[fam](seed, i, tier))
     for cfgname, voters, depth in spec.get("gen", []):
         scs += gen_spec_behaviours(cfgname, workdir, unit * 4, depth, seed, voters)
+    if spec.get("api"):
+        a, extra = fam_api_all(seed, tier, workdir)
+        scs += a
+        EXTRA_COV.update(extra)
     return scs
 
 
@@ -281,6 +370,7 @@ def run_check(prop, tier, seed, keep=False):
         "attack_schedules_replayed": spec_tot.get("attacks", 0),
         "checker_cmd": "tlc Monitors.tla (Props={%s}) over recorded traces; tlc %s" % (prop, spec.get("mc")),
     }
+    cov.update(EXTRA_COV)
     if not cov["states"]:
         cov.pop("states"), cov.pop("transitions")
     doc = {"property_id": prop, "tier": tier, "seed": seed, "level": "model_checking", "coverage": cov,
